@@ -8,6 +8,10 @@
 (*       explicit     1 iff the state / action lists are given explicitly (all states)   *)
 (*       cuts         the max_states values explored for reachable_states (INF = -1)     *)
 (*       plan         1 iff the optimal values are wanted (planning-result clause)       *)
+(*     PD is 2, 3, 4 or - in the rare-probability family - 10^8 / 10^9 with numerators   *)
+(*     1 and 10 next to ordinary ones (entries of 1e-9 / 1e-8: positive, hence successors *)
+(*     and cells like any other; rewards are bounded there so that every sum T*R stays   *)
+(*     below 2^30, and plan = 0).                                                        *)
 (*     States may be dead ends (no action), explicitly absorbing with arbitrary ghost    *)
 (*     dynamics, implicitly absorbing, and the initial support may contain absorbing     *)
 (*     states.                                                                          *)
